@@ -72,7 +72,7 @@ type Behavior struct {
 	ExtM          map[string]any // m dictionary (nil = ut_metadata:2, ut_pex:1)
 	MetadataSize  int            // advertised metadata_size (0 = real size, <0 = omit)
 	MetaLimit     int            // the SUT's MaxMetadataSize (0 = unknown): a request to a peer advertising more is a C13 violation
-	MetaMode      string         // "", "honest", "reject", "silent", "garbage", "wrongbytes", "wrongsize", "dup", "unrequested"
+	MetaMode      string         // "", "honest", "reject", "silent", "garbage", "wrongbytes", "wrongsize", "dup", "unrequested", "replay"
 	ClientVersion string
 	PEXAdded      [][]string // PEX rounds: each a list of "ip:port" sent as `added`
 	PEXEvery      time.Duration
@@ -183,6 +183,7 @@ type Peer struct {
 	BytesPayloadTx   int64
 	RecvLog          []string
 	pendingServe     []Req
+	metaReplay       bool
 	leechKick        chan struct{}
 	Received         map[Req][]byte // blocks received (leech mode)
 	numPieces        int
@@ -1574,6 +1575,35 @@ func (p *Peer) onMetadata(m Msg) {
 			return
 		case "garbage":
 			p.Send(EncExtended(id, map[string]any{"msg_type": 1, "piece": int(piece), "total_size": total}, p.rng.Bytes(p.rng.Range(0, 20000))))
+			return
+		case "replay":
+			// answers the first request with a block of the right size and wrong content, then
+			// sends that same block again and again and nothing else
+			p.mu.Lock()
+			started := p.metaReplay
+			p.metaReplay = true
+			p.mu.Unlock()
+			if started {
+				return
+			}
+			start := int(piece) * 16384
+			if start >= total || piece < 0 {
+				return
+			}
+			blk := p.rng.Bytes(min(16384, total-start))
+			d := map[string]any{"msg_type": 1, "piece": int(piece), "total_size": total}
+			every := p.rng.Dur(200*time.Millisecond, 900*time.Millisecond)
+			go func() {
+				for !p.IsClosed() {
+					p.Send(EncExtended(id, d, blk))
+					simrt.Count("fault.peer.metadata_replay", 1)
+					select {
+					case <-time.After(every):
+					case <-p.done:
+						return
+					}
+				}
+			}()
 			return
 		}
 		start := int(piece) * 16384
